@@ -11,7 +11,7 @@ mkdir -p "$VERIF/bin" "$VERIF/.cache"
 if [ ! -x "$VERIF/bin/verifinst" ] || [ "$VERIF/engine/inst/main.go" -nt "$VERIF/bin/verifinst" ]; then
   (cd "$VERIF/engine/inst" && go build -o "$VERIF/bin/verifinst" .) >&2 || { echo "build.sh: cannot build verifinst" >&2; exit 2; }
 fi
-KEY=$( { cd "$REPO/teamserver" && find . -type f \( -name '*.go' -o -name go.mod -o -name go.sum -o -name '404.html' \) -not -path './pkg/profile/yaotl/*_test.go' | LC_ALL=C sort | xargs sha256sum; cd "$VERIF/engine" && find . -type f | LC_ALL=C sort | xargs sha256sum; go version; } | sha256sum | cut -c1-24)
+KEY=$( { cd "$REPO/teamserver" && find . -type f \( -name '*.go' -o -name go.mod -o -name go.sum -o -name '404.html' \) -not -path './pkg/profile/yaotl/*_test.go' | LC_ALL=C sort | xargs sha256sum; cd "$VERIF/engine" && find . -type f | LC_ALL=C sort | xargs sha256sum; go version; echo "skip=${VERIF_SKIP:-}"; } | sha256sum | cut -c1-24)
 BIN="$VERIF/.cache/$KEY/sim"
 if [ -x "$BIN" ]; then echo "$BIN"; exit 0; fi
 S=$(mktemp -d "$TMPBASE/verifbuild.XXXXXX")
@@ -20,6 +20,8 @@ rsync -a --exclude '.git' --include '*/' --include '*.go' --include 'go.mod' --i
 mkdir -p "$S/verifsim"
 cp -r "$VERIF/engine/sim/." "$S/verifsim/" || exit 2
 cp "$REPO/teamserver/pkg/handlers/404.html" "$S/verifsim/cmd/sim/404.html" || exit 2
+# development aid: leave out work-in-progress files (space separated paths relative to engine/sim)
+for f in ${VERIF_SKIP:-}; do rm -f "$S/verifsim/$f"; done
 (cd "$S" && go mod edit -require=github.com/anishathalye/porcupine@v1.3.0) >&2 || exit 2
 (cd "$S" && "$VERIF/bin/verifinst" "$S") >&2 || { echo "build.sh: instrumentation failed" >&2; exit 2; }
 mkdir -p "$VERIF/.cache/$KEY"
